@@ -7,6 +7,7 @@ import (
 	"bytes"
 	"encoding/base64"
 	"encoding/json"
+	"errors"
 	"fmt"
 	"math"
 	"strings"
@@ -109,10 +110,11 @@ func maxLineLen(data []byte) int {
 
 // igcReadProj reads data and records projections of everything igc.Read returned: the line string, the headers
 // (hdrMode "full": every field, for input rendered by this driver; "dates": the first six characters of the value of the
-// DTE headers; otherwise only their number), the kind of the error and the number of record errors.
+// DTE headers; otherwise only their number), the kind of the error (errors.As: an igc.Errors list anywhere in the chain
+// is the list) and the number of record errors. nores: Read returned no track (a nil *T or a nil LineString).
 func igcReadProj(data []byte, out map[string]any, hdrMode string) *igc.T {
 	out["layout"], out["flatlen"], out["nfix"], out["nerr"], out["times"] = "?", 0, 0, 0, [][]int{}
-	out["errkind"], out["maxline"], out["nhdr"] = "?", maxLineLen(data), 0
+	out["errkind"], out["maxline"], out["nhdr"], out["nores"] = "?", maxLineLen(data), 0, false
 	switch hdrMode {
 	case "full":
 		out["hdrs"] = [][]string{}
@@ -122,18 +124,27 @@ func igcReadProj(data []byte, out map[string]any, hdrMode string) *igc.T {
 	var res *igc.T
 	ev, msg := call(func() {
 		t, err := igc.Read(bytes.NewReader(data))
-		res = t
 		out["errkind"] = "nil"
 		if err != nil {
-			if es, ok := err.(igc.Errors); ok {
+			var es igc.Errors
+			if errors.As(err, &es) {
 				out["errkind"] = "Errors"
 				out["nerr"] = len(es)
 				_ = es.Error()
+				_ = err.Error()
 			} else {
 				out["errkind"] = fmt.Sprintf("%T", err)
 				out["nerr"] = -1
 			}
 		}
+		if t == nil || t.LineString == nil {
+			out["nores"] = true
+			if t != nil {
+				out["nhdr"] = len(t.Headers)
+			}
+			return
+		}
+		res = t
 		ls := t.LineString
 		out["layout"] = layoutName(ls.Layout())
 		out["flatlen"] = len(ls.FlatCoords())
@@ -219,8 +230,10 @@ func igcHandler(raw json.RawMessage) map[string]any {
 			}
 		})
 		if ev != "ok" {
-			return map[string]any{"ev": "panic", "msg": "Encode: " + msg, "encerr": "", "got": []any{}, "layout": "?", "flatlen": 0, "nfix": 0, "nerr": 0, "times": [][]int{}}
+			return map[string]any{"ev": "panic", "encev": "panic", "msg": "Encode: " + msg, "encerr": "", "got": []any{}, "layout": "?", "flatlen": 0, "nfix": 0, "nerr": 0, "times": [][]int{},
+				"errkind": "?", "maxline": 0, "nhdr": 0, "nores": false, "hdates": []string{}}
 		}
+		out["encev"] = "ok"
 		t := igcReadProj(buf.Bytes(), out, "dates")
 		got := []any{}
 		if t != nil && out["ev"] == nil {
